@@ -15,7 +15,8 @@ ClauseName == <<"message outside the alphabet", "cache entry is not the import o
                 "registered callbacks after the step", "waiting requests after the step",
                 "cache seen by the released caller", "immediate call-backs of a registration",
                 "DriverReceived = Sent", "ClientCache = DriverReturned", "ClientCache error = raised error",
-                "description", "clock">>
+                "description", "clock",
+                "concurrent updates: malformed line or lost update">>
 (* evaluates to b; remembers the clause number when b is false *)
 Clause(n, b) == IF b THEN TRUE ELSE ~TLCSet(NT + t, n)
 
@@ -83,6 +84,7 @@ TDescribe == /\ Clause(13, ToSet(Ev.desc) \subseteq AllKeys)
 TE2E == /\ Clause(10, E2EReceived(Ev))
         /\ Clause(11, E2ECache(Ev))
         /\ Clause(12, E2EError(Ev))
+        /\ Clause(15, E2EQuiet(Ev))
         /\ UNCHANGED vars
 
 TStep ==
